@@ -1,4 +1,5 @@
 import PV.Expr.Syntax
+import PV.C11.Kinds
 import PV.C16.Model
 import PV.C17.Model
 /-
@@ -419,5 +420,84 @@ def display (p : Nat → Bool) (e : Expr) : List Out := unparse p e Prec.TEST
 
 /-- `format!("{}", expr)` as text -/
 def displayText (p : Nat → Bool) (e : Expr) : List Nat := text p (display p e)
+
+
+/-! ## the parenthesisation decision as a table
+
+  `kindPrec k` is the level in the `group_if!` of the arm that renders kind `k` (`none`: the arm has
+  no `group_if!`), `slotLevel s` the `level` argument the parent passes for the child in slot `s`.
+  `PV.C11.Lemmas` proves, for every constructor, that `unparse` is built from exactly these two
+  tables (`unparse_*_shape`). -/
+
+def kindPrec : Kind → Option Nat
+  | .tuple => some Prec.TUPLE
+  | .namedExpr => some Prec.TUPLE
+  | .lambda => some Prec.TEST
+  | .ifExp => some Prec.TEST
+  | .boolOp o => some (boolOpPrec o)
+  | .unary o => some (unaryOpPrec o)
+  | .compare => some Prec.CMP
+  | .binOp o => some (binOpPrec o)
+  | .await => some Prec.AWAIT
+  | .atom => none
+  | .starred => none
+  | .slice => none
+
+def slotLevel : Slot → Nat
+  | .top => Prec.TEST
+  | .boolOperand o => boolOpPrec o + 1
+  | .unaryOperand o => unaryOpPrec o
+  | .cmpLeft => Prec.CMP + 1
+  | .cmpRight => Prec.CMP + 1
+  | .binLeft o => binOpPrec o + (if o == .pow then 1 else 0)
+  | .binRight o => binOpPrec o + (if o == .pow then 0 else 1)
+  | .awaitOperand => Prec.ATOM
+  | .lambdaBody => Prec.TEST
+  | .lambdaDefault => Prec.TEST
+  | .ifBody => Prec.TEST + 1
+  | .ifTest => Prec.TEST + 1
+  | .ifOrelse => Prec.TEST
+  | .dictKey => Prec.TEST
+  | .dictValue => Prec.TEST
+  | .dictUnpack => Prec.TEST
+  | .setElt => Prec.TEST
+  | .listElt => Prec.TEST
+  | .tupleElt => Prec.TEST
+  | .subTupleElt => Prec.TEST
+  | .listCompElt => Prec.TEST
+  | .setCompElt => Prec.TEST
+  | .genExpElt => Prec.TEST
+  | .dictCompKey => Prec.TEST
+  | .dictCompValue => Prec.TEST
+  | .compTarget => Prec.TUPLE
+  | .compIter => Prec.TEST + 1
+  | .compIf => Prec.TEST + 1
+  | .yieldValue => Prec.TEST
+  | .yieldFromValue => Prec.TEST
+  | .callFunc => Prec.ATOM
+  | .callArg => Prec.TEST
+  | .callKwValue => Prec.TEST
+  | .callDstarValue => Prec.TEST
+  | .attrValue => Prec.ATOM
+  | .subValue => Prec.ATOM
+  | .subSlice => Prec.TUPLE
+  | .sliceLower => Prec.TEST
+  | .sliceUpper => Prec.TEST
+  | .sliceStep => Prec.TEST
+  | .starredValue => Prec.EXPR
+  | .namedValue => Prec.ATOM
+  | .fstringField => Prec.TEST + 1
+
+/-- does the unparser put a child of kind `k` standing in slot `s` into parentheses? -/
+def modelParens (s : Slot) (k : Kind) : Bool :=
+  match kindPrec k with
+  | some prec => decide (slotLevel s > prec)
+  | none => false
+
+def b2n (b : Bool) : Nat := if b then 1 else 0
+
+/-- the model's decision for every admissible (slot, kind) pair, in table order -/
+def parenTable : List Nat :=
+  allSlots.flatMap fun s => (allKinds.filter (admissible s)).map fun k => b2n (modelParens s k)
 
 end PV.C11
